@@ -301,6 +301,19 @@ fn run_generic<V: VringT<GM> + Clone + Send + Sync + 'static>(ctx: &mut Ctx, c: 
                 Some(sc) => w_epoll.iter().any(|x| *x < sc) && w_read.iter().any(|r| *r > sc && *r < *e),
                 None => false,
             };
+            // the known findings cover only the dispatches of wake-ups that were already under way when the state
+            // changed (one per such wake-up); anything beyond that is a different defect (e.g. a registration that
+            // survives the stop and keeps waking the worker)
+            let late = entries.iter().filter(|x| **x > reply_at && **x < enable_at).count();
+            let under_way = match state_change {
+                Some(sc) => w_epoll.iter().filter(|x| **x < sc).count().max(1),
+                None => 1,
+            };
+            if late > under_way {
+                return Err(format!(
+                    "event handler entered {late} times after the reply to the disabling message ({reply_at}) and before the enabling message ({enable_at}), but only {under_way} wake-up(s) were under way when the ring state changed; trace {trace:?}"
+                ));
+            }
             if read_before && ctx.known(F9A_SIG) {
                 ctx.class("known_F9a");
             } else if !read_before && c.scenario == Scenario::StopRestart && woken_before_read_after && ctx.known(F9C_SIG) {
